@@ -3,6 +3,7 @@ the failed obligation is mapped to a family of concrete candidate inputs which a
 /repo's current tree by the `replay` crate."""
 import json
 import os
+import re
 import subprocess
 
 import vdrv
@@ -20,6 +21,22 @@ def build():
     return os.path.join(tgt, "release", "witness"), None
 
 
+def known_witnesses():
+    """the failing inputs of the recorded known findings: they reproduce on the unchanged tree by
+    definition and must not be attached to another obligation as its witness"""
+    out = []
+    path = os.path.join(vdrv.VERIF, "known_findings.txt")
+    if os.path.exists(path):
+        for line in open(path):
+            if line.startswith("finding:"):
+                for m in re.finditer(r"witness: (\{[^}]*\})", line):
+                    try:
+                        out.append(json.loads(m.group(1)))
+                    except Exception:
+                        pass
+    return out
+
+
 def search(prop, violations):
     if not os.path.exists(os.path.join(REPLAY_DIR, "Cargo.toml")):
         return {"note": "no witness families available"}
@@ -30,7 +47,8 @@ def search(prop, violations):
     out = {"families": fams, "tried": 0}
     for fam in fams:
         try:
-            r = subprocess.run([exe, "search", fam], stdout=subprocess.PIPE, stderr=subprocess.PIPE, text=True, timeout=600)
+            r = subprocess.run([exe, "search", fam], stdout=subprocess.PIPE, stderr=subprocess.PIPE, text=True, timeout=600,
+                               env=dict(os.environ, VERIF_WITNESS_EXCLUDE=json.dumps(known_witnesses())))
         except subprocess.TimeoutExpired:
             continue
         for line in r.stdout.splitlines():
